@@ -89,7 +89,7 @@ PROTO = "rpyc/core/protocol.py::Connection."
 ATTR_FUNCS = [PROTO + n for n in ("_check_attr", "_access_attr", "_handle_getattr", "_handle_setattr", "_handle_delattr",
                                   "_handle_call", "_handle_callattr", "_handle_cmp", "_handle_ctxexit", "_handle_oldslicing")]
 SERVICE_HOOKS = ["rpyc/core/service.py::Service._rpyc_delattr", "rpyc/core/service.py::Service._rpyc_setattr"]
-ALL_CONTRACTS = ["brine", "compat", "externals", "stream", "channel", "protocol_attr", "colls", "protocol_box", "protocol_core", "async_", "protocol_close", "lib", "netref", "protocol_handlers", "scenarios", "vinegar", "classic", "registry", "server", "protocol_init", "helpers"]
+ALL_CONTRACTS = ["brine", "compat", "externals", "stream", "channel", "protocol_attr", "colls", "protocol_box", "protocol_core", "async_", "protocol_close", "lib", "netref", "protocol_handlers", "scenarios", "vinegar", "classic", "registry", "server", "protocol_init", "helpers", "service"]
 ALL_SPECS = ["brine_spec", "channel_spec", "policy_spec", "refcount_spec", "protocol_spec", "box_spec", "netref_spec", "vinegar_spec", "registry_spec", "server_spec"]
 
 PLANS["C06"] = dict(
@@ -508,7 +508,8 @@ PLANS["C16"] = dict(
     title="A server keeps serving good clients whatever bad clients do (partial: per-connection isolation and per-client bookkeeping)",
     contracts=ALL_CONTRACTS, specs=ALL_SPECS, table="module",
     targets=[PROTO + "__init__", "rpyc/lib/colls.py::RefCountingColl.__init__", "rpyc/lib/colls.py::WeakValueDict.__init__",
-             SRV + "Server._authenticate_and_serve_client", SRV + "ThreadPoolServer._accept_method", SRV + "Server._serve_client"],
+             SRV + "Server._authenticate_and_serve_client", SRV + "ThreadPoolServer._accept_method", SRV + "Server._serve_client",
+             "rpyc/core/service.py::Service._connect"],
     lemmas=[], compositions=[], native_focus=[], design_ref="DESIGN.md section 4, C16",
     assumptions=COMMON_ASSUMPTIONS + [
         "PARTIAL. VERIFIED: Connection.__init__ gives every connection its OWN, newly created and empty table of lent objects, "
@@ -524,6 +525,9 @@ PLANS["C16"] = dict(
         "answered or ends only that one connection (C07 / C08 / C11)",
         "NOT covered (threads / processes / OS, outside sequential contracts): that the accept loop keeps running while client "
         "threads fail, that one client's thread cannot starve the others, the forking server, the thread pool's scheduling; "
-        "`its own service instance` (Service._connect on a class: hybridmethod + dynamic instantiation) is not under contract",
+        "`its own service instance`: Service._connect is verified with the service as a dynamic object - given a CLASS it calls it "
+        "once, without arguments, and builds the connection around that new instance (given an instance, around it), runs on_connect "
+        "once on the connection the protocol class built and returns that connection; what the service's own constructor does "
+        "(a user class sharing state through class attributes) is the user's code",
     ],
 )
